@@ -21,6 +21,9 @@ ALPHA = ['4', '0', '9', 'b', '\x1e', '"', '[', '{', 'A', '=', '!', '٣', 'd', '%
 LIMIT = 16
 
 
+HISTORIES = [(False,), (True,), (True, False), (False, True), (True, False, True), (False, True, False)]
+
+
 def _mods():
     from engineio import packet, payload
     return packet, payload
@@ -64,6 +67,24 @@ def check_list(pkts, out, stats):
         out.append(_viol('framing_mismatch', 'encode', '%r encoded as %r, want %r' % (pkts, got, ref),
                          {'harness': 'list', **case}, (0, len(pkts))))
         return
+    # the same packet objects may already have been encoded for other channels (a broadcast delivers one Packet
+    # to polling and WebSocket sessions alike): whatever was asked of them before, the payload is the same
+    if len(pkts) <= 4 and any(isinstance(d, (bytes, bytearray)) for t, d in pkts):
+        for hist in HISTORIES:
+            objs = [packet.Packet(t, data=d) for t, d in pkts]
+            try:
+                for b64 in hist:
+                    for o in objs:
+                        o.encode(b64=b64)
+                got2 = payload.Payload(packets=objs).encode()
+            except Exception as e:
+                got2 = 'raised %r' % (e,)
+            stats['encodes'] += 1
+            if got2 != ref:
+                out.append(_viol('framing_depends_on_encode_history', 'encode',
+                                 '%r, each already encoded with b64=%r: payload %r, want %r' % (pkts, list(hist), got2, ref),
+                                 {'harness': 'list', **case}, (0, len(pkts))))
+                return
     # text payloads starting with 'b' are indistinguishable from base64 on the
     # wire by protocol design; the property excludes nothing else but U+001E
     ambiguous = any(isinstance(d, str) and t == 4 and False for t, d in pkts)
@@ -260,7 +281,7 @@ def run(ctx):
         'evaluations': tot['cases'] + st['decodes'] + st['decode_errors'],
         'distinct_nontrivial': tot['nontrivial'],
         'rule': 'encoder: every packet list of length <= %d over 8 representative packets, cyclic '
-                'families of every length 0..18 over 16 packets, uniform lists up to 100, each also as '
+                'families of every length 0..18 over 16 packets, uniform lists up to 100 (lists of <= 4 packets holding binary data also from packet objects already encoded for other channels, 6 encode histories), each also as '
                 'd=quote and d=quote_plus form bodies; decoder: every string of length <= %d over the '
                 '14-symbol alphabet %r plus the complete slice {%s}; plus separator/limit probes 0..19 and '
                 'bodies of 1000/100000 segments or brackets. Non-trivial = more than one symbol / non-empty list.'
